@@ -26,10 +26,20 @@ def tla_seq(xs):
     return "<<" + ", ".join('"' + x.replace("\\", "\\\\") + '"' for x in xs) + ">>"
 
 
-def gen(R, pat_alpha, subj_alpha, maxp, maxs, name, pairs=False):
+# fourth family: every way a bracket expression can open ([ [! [^ []  [!] [^] [\\ ...) continued over wildcards and closers
+PAT_ALPHA4 = ["a", "?", "*", "[", "]", "!", "^", "-"]
+SUBJ_ALPHA4 = ["a", "]", "?", "!", "^", "-"]
+ROOTS4 = [["["], ["[", "!"], ["[", "^"], ["[", "]"], ["[", "!", "]"], ["[", "^", "]"], ["[", "\\"], ["[", "!", "\\"], ["[", "a", "-"], ["[", "!", "-"],
+          ["[", "]", "-"], ["[", "[", ":"], ["[", "!", "!"], ["[", "^", "^"], ["[", "!", "^"]]
+
+
+def gen(R, pat_alpha, subj_alpha, maxp, maxs, name, pairs=False, roots=None):
     defs = "MCPatAlpha == %s\nMCSubjAlpha == %s\n" % (tla_seq(pat_alpha), tla_seq(subj_alpha))
     cfg = ("INIT Init\nNEXT Next\nINVARIANT Inv\nCONSTANTS\n PatAlpha <- MCPatAlpha\n"
            " SubjAlpha <- MCSubjAlpha\n MaxP = %d\n MaxS = %d\n WithPairs = %s\n" % (maxp, maxs, "TRUE" if pairs else "FALSE"))
+    if roots:
+        defs += "MCRoots == {%s}\n" % ", ".join(tla_seq(r) for r in roots)
+        cfg += " Roots <- MCRoots\n"
     res = R.tlc("PatternGen", cfg, defs=defs, name=name, timeout=3000)
     subj, cases = None, []
     for p in res.prints:
@@ -40,6 +50,9 @@ def gen(R, pat_alpha, subj_alpha, maxp, maxs, name, pairs=False):
     if subj is None or not cases:
         raise vlib.MachineryError("PatternGen produced no cases")
     expect_n = sum(len(pat_alpha) ** i for i in range(maxp + 1)) * (3 if pairs else 1)
+    if roots:
+        import itertools
+        expect_n = len(set(tuple(r) + t for r in roots for i in range(maxp - len(r) + 1) for t in itertools.product(pat_alpha, repeat=i)))
     if len(cases) != expect_n:
         raise vlib.MachineryError("PatternGen: %d cases, expected %d" % (len(cases), expect_n))
     return subj, cases
@@ -67,8 +80,8 @@ def explain(rec, subj):
     return dict(pattern=rec["text"], status=rec["st"])
 
 
-def family(R, pat_alpha, subj_alpha, maxp, maxs, name, pairs=False):
-    subj, cases = gen(R, pat_alpha, subj_alpha, maxp, maxs, name, pairs)
+def family(R, pat_alpha, subj_alpha, maxp, maxs, name, pairs=False, roots=None):
+    subj, cases = gen(R, pat_alpha, subj_alpha, maxp, maxs, name, pairs, roots)
     obs, _ = R.drive("match", cases, header=dict(subjects=subj), shards=vlib.NCPU)
     if len(obs) != len(cases):
         raise vlib.MachineryError("driver returned %d of %d records" % (len(obs), len(cases)))
@@ -108,6 +121,8 @@ def run(R):
                 (PAT_ALPHA, SUBJ_ALPHA, 3, 3, "c12p", True)]
     R.exhaustive = True
     sizes = []
+    n, s = family(R, PAT_ALPHA4, SUBJ_ALPHA4, 5 if R.tier == "quick" else 6, 2, "c12d", roots=ROOTS4)
+    sizes.append(dict(family="c12d (bracket openings)", patterns=n, subjects=s, max_pattern_len=5 if R.tier == "quick" else 6, max_subject_len=2))
     for pa, sa, mp, ms, name, pairs in plan:
         n, s = family(R, pa, sa, mp, ms, name, pairs)
         sizes.append(dict(family=name, patterns=n, subjects=s, max_pattern_len=mp, max_subject_len=ms))
